@@ -258,6 +258,48 @@ pub fn generate_c03(g: &mut Gen, thorough: bool) {
         f.push(data);
         g.push(f.join("\t"), &format!("oracle-{class}"), nontrivial);
     }
+    // macros taking arguments, the modifiers in every position (in front of the name included: the arguments
+    // reach the body wherever the modifiers stand)
+    {
+        let mut w = make_world(&mut g.rng, 1);
+        w.resources.push(("m:shift".to_string(), "helmert x=$east y=$north(1)".to_string()));
+        w.resources.push(("m:two".to_string(), "addone | m:shift east=$e north=7".to_string()));
+        let cores = ["m:shift east=5", "m:shift east=-2 north=3", "m:two e=4", "addone", "helmert z=2"];
+        for k in 0..(if thorough { 4000 } else { 300 }) {
+            let len = 1 + g.rng.below(3);
+            let steps: Vec<StepSpec> = (0..len)
+                .map(|i| {
+                    let core = if i == 0 || g.rng.chance(1, 2) { cores[g.rng.below(3)] } else { cores[3 + g.rng.below(2)] };
+                    let mut st = random_mods(&mut g.rng, core, true);
+                    if k % 3 == 0 {
+                        st.inv = true;
+                    }
+                    st
+                })
+                .collect();
+            let def = render_pipeline(&mut g.rng, &steps, k % 5 == 0);
+            let dir = if g.rng.chance(1, 2) { "F" } else { "I" };
+            let data = super::probe_data(2);
+            let mut f = vec!["OP".to_string()];
+            f.extend(ctx_fields("default", &w));
+            f.push(crate::wire::escape(&def));
+            f.push("both".to_string());
+            f.push(dir.to_string());
+            f.push(data.clone());
+            g.push(f.join("\t"), "macro-arguments-and-modifiers", true);
+            let mut f = vec!["S_C03".to_string()];
+            f.extend(ctx_fields("default", &w));
+            f.push(crate::wire::escape(&def));
+            f.push(steps.len().to_string());
+            for s in &steps {
+                f.push(s.flags());
+                f.push(crate::wire::escape(&s.core));
+            }
+            f.push(dir.to_string());
+            f.push(data);
+            g.push(f.join("\t"), "oracle-macro-arguments-and-modifiers", true);
+        }
+    }
     // a step next to its own inverse is still two steps: both run (roundoff and all), both are counted
     let w = make_world(&mut g.rng, 2);
     let data = crate::wire::data_of(&[[0.1, 0.7, 1e-3, 2000.3], [1.0 / 3.0, -2.0 / 7.0, 1e15 + 0.5, 1e-9]]);
